@@ -292,6 +292,11 @@ class SchemaBuilder(
     ) -> Sequence[Property]:
         raise NotImplementedError
 
+    def _dependent_required(
+        self, cls: type, fields: Sequence[ObjectField]
+    ) -> Mapping[str, AbstractSet[str]]:
+        return get_dependent_required(cls)
+
     def object(self, tp: AnyType, fields: Sequence[ObjectField]) -> JsonSchema:
         cls = get_origin_or_type(tp)
         properties = sort_by_order(
@@ -323,7 +328,7 @@ class SchemaBuilder(
                     self._object_schema(cls, field)
                 )
         alias_by_names = {f.name: f.alias for f in fields}.__getitem__
-        dependent_required = get_dependent_required(cls)
+        dependent_required = self._dependent_required(cls, fields)
         result = []
         if discriminator_parent := get_discriminated_parent(cls):
             discriminator_ref = self.ref_schema(
@@ -507,6 +512,24 @@ class SerializationSchemaBuilder(
         return not field.skippable(
             settings.serialization.exclude_defaults, settings.serialization.exclude_none
         )
+
+    def _dependent_required(
+        self, cls: type, fields: Sequence[ObjectField]
+    ) -> Mapping[str, AbstractSet[str]]:
+        # a field which can be skipped cannot be guaranteed to be present
+        by_name = {f.name: f for f in fields}
+        result = {}
+        for name, required in get_dependent_required(cls).items():
+            if name not in by_name:
+                continue
+            not_skippable = {
+                req
+                for req in required
+                if req in by_name and self._field_required(by_name[req])
+            }
+            if not_skippable:
+                result[name] = not_skippable
+        return result
 
     def properties(
         self, tp: AnyType, fields: Sequence[ObjectField]
